@@ -149,6 +149,14 @@ def judge(chk, label, lines, zones_wanted, impl_pieces, work, start, until, note
                                   'zone %s of source %s: %s' % (n, label, 'the era beginning at the year boundary takes effect at %s instead of %s' % (v['impl']['obs'][:2], sp[:2])),
                                   {'zone': n, 'target': label, 'spec': sp, 'impl': v['impl']['obs']})
                     continue
+            # classify a second known construct: the trace equals the source semantics *without* zic's writezone merge
+            # (TzSem.PiecesUnmerged), i.e. the only difference from zic is that two transitions zic folds are kept apart
+            if v.get('implUnmerged') is True:
+                chk.violation('%s:writezone-merge-not-applied' % ':'.join(label.split(':')[1:]),
+                              'zone %s of source %s: from %s the compiled zone shows %s where zic, folding the era start into the following rule transition, shows %s' % (
+                                  n, label, v['impl']['obs'][:2], v['impl']['obs'][2:], sp[2:] if sp else None),
+                              {'zone': n, 'target': label, 'spec': sp, 'impl': v['impl']['obs']})
+                continue
             chk.violation('%s:%s:semantics' % (label, n), 'emitted zone interpreted by the matching processor differs from the source semantics at piece %d: source says %s, compiled zone says %s' % (
                 v['impl']['at'], v['impl']['spec'], v['impl']['obs']), {'zone': n, 'target': label, 'spec': v['impl']['spec'], 'impl': v['impl']['obs']})
     return res, len([n for n in names if n in impl_pieces]), bad
@@ -218,13 +226,17 @@ def _gen_zone(rnd, k):
         neras = rnd.choice([1, 1, 2, 2, 3])
         pol = 'P%03d' % k
         used_pol = False
+        pol_lines = gen_policy(rnd, pol)
         y = rnd.choice([1999, 2003, 2007, 2011])
         rnd.choice(STDOFFS)                          # (keeps the random stream of earlier versions)
         off = STDOFFS[k % len(STDOFFS)]              # every offset class occurs in every generated source
         eras = []
+        plan = []
         for e in range(neras):
             # (a first era in permanent DST has no agreed meaning before its first transition: TZif readers differ)
-            rules = rnd.choice(['-', pol, pol, '1:00', '0:20']) if e > 0 else rnd.choice(['-', pol, pol])
+            plan.append(rnd.choice(['-', pol, pol, '1:00', '0:20']) if e > 0 else rnd.choice(['-', pol, pol]))
+        for e in range(neras):
+            rules = plan[e]
             if rules == pol:
                 fmt = rnd.choice(['TE%sT', 'STD/DST', 'XY%sZ'])   # abbreviations of 3..6 characters (POSIX)
                 used_pol = True
@@ -235,6 +247,12 @@ def _gen_zone(rnd, k):
             if e < neras - 1:
                 u = list(rnd.choice(UNTILS))
                 u[0] = str(y)
+                if plan[e + 1] == pol and rnd.random() < 0.35:
+                    # the next era starts exactly where one of its own rules fires (same month, day expression, time and
+                    # suffix): era boundary == rule transition
+                    f = rnd.choice([l for l in pol_lines if l.startswith('Rule')]).split('\t')
+                    if int(f[2]) <= y and (f[3] == 'max' or (f[3] == 'only' and int(f[2]) == y) or (f[3] not in ('max', 'only') and int(f[3]) >= y)):
+                        u = [str(y), f[5], f[6], f[7]]
                 y += rnd.choice([2, 5, 9])
             else:
                 u = []
@@ -242,7 +260,7 @@ def _gen_zone(rnd, k):
             if rnd.random() < 0.6:
                 off = rnd.choice(STDOFFS)
         if used_pol:
-            lines += gen_policy(rnd, pol)
+            lines += pol_lines
         for i, (o, r, f, u) in enumerate(eras):
             pre = 'Zone\t%s\t' % zname if i == 0 else '\t\t\t'
             lines.append(pre + '\t'.join([o, r, f] + u))
@@ -265,6 +283,8 @@ def mutate_source(rnd, lines, nmut):
         elif kind == 'on':
             f[6] = rnd.choice(['1', '8', 'lastSun', 'Sun>=1', 'Sun>=8', 'lastSat', 'Fri>=15'])
         else:
+            if f[6].isdigit() and int(f[6]) > 28:
+                continue          # (a numeric day beyond 28 does not exist in every month: zic would reject the source)
             f[5] = rnd.choice(['Feb', 'Mar', 'Apr', 'May', 'Sep', 'Oct', 'Nov'])
         lines[i] = '\t'.join(f)
         done.append((i, kind))
